@@ -99,7 +99,6 @@ func runC03(c *Ctx) {
 	})
 	bt := c.NewBatch()
 	defer bt.Flush()
-	eps := big.NewRat(1, 100000000)
 	for _, bc := range cases {
 		bc := bc
 		c.Evals++
@@ -129,100 +128,10 @@ func runC03(c *Ctx) {
 			continue
 		}
 		// ---- monitor: shown value of every A/L account row vs exact mark-to-market
-		dates, rows, _ := parseTextReport(bc.Stdout)
-		if len(dates) == 0 {
+		dates, ds, rows, start, ok := c03ALMonitor(c, bt, "valued", bc.Idx, in, bc.F, bc.J, bc.Stdout)
+		if !ok {
 			continue
 		}
-		var ds []string
-		for _, d := range dates {
-			t, err := time.Parse("2006-01-02", d)
-			if err != nil {
-				ds = nil
-				break
-			}
-			ds = append(ds, itoa(dayNum(t)))
-		}
-		if ds == nil {
-			continue
-		}
-		jmin := 1 << 30
-		for _, d := range bc.J.Dirs {
-			if d.Kind == 't' && d.Date < jmin {
-				jmin = d.Date
-			}
-		}
-		start := jmin
-		if bc.F.From > start {
-			start = bc.F.From
-		}
-		if bc.F.To != 0 && start > bc.F.To {
-			c.Tag("inverted-window")
-			continue // empty window: the report shows nothing, the property makes no claim
-		}
-		shown := map[string][]string{}
-		for _, r := range rows {
-			if strings.HasPrefix(r.Path, "Assets") || strings.HasPrefix(r.Path, "Liabilities") {
-				shown[r.Path] = r.Values
-			}
-		}
-		bt.Add(func(ans string) {
-			if ans == "bad-op" || ans == "" {
-				return
-			}
-			for _, item := range strings.Fields(ans) {
-				parts := strings.Split(item, "|")
-				acc := parts[0]
-				vals, has := shown[acc]
-				for k, cell := range parts[1:] {
-					f := strings.Split(cell, ":")
-					if len(f) != 4 {
-						continue
-					}
-					if f[1] == "none" {
-						// a needed price is missing at this date although the command printed a report
-						q := "0"
-						if has && k < len(vals) {
-							q = vals[k]
-						}
-						c.Monitor("valued", bc.Idx, "missing_price_is_error", in, false, fmt.Sprintf("account %s column %s: no price exists but the report shows %q", acc, dates[k], q))
-						continue
-					}
-					mtmD, _ := ratOf(f[1])
-					mtmF := new(big.Rat)
-					if f[2] != "none" {
-						mtmF, _ = ratOf(f[2])
-					}
-					var steps int64
-					fmt.Sscan(f[3], &steps)
-					// steps = Spec.stepBound (non-zero bookings on the account in a commodity other than V dated inside
-					// the window up to the column date + days with a price declaration there, per such commodity):
-					// the bound of theorem C03_command_cell, no slack added
-					bound := new(big.Rat).Mul(eps, big.NewRat(steps, 1))
-					sv := ""
-					if has && k < len(vals) {
-						sv = vals[k]
-					}
-					s, ok := ratOf(sv)
-					if !ok {
-						c.Monitor("valued", bc.Idx, "cell_is_number", in, false, "cell "+sv)
-						continue
-					}
-					windowed := new(big.Rat).Sub(mtmD, mtmF)
-					diffW := new(big.Rat).Abs(new(big.Rat).Sub(s, windowed))
-					diffL := new(big.Rat).Abs(new(big.Rat).Sub(s, mtmD))
-					detail := fmt.Sprintf("account %s column %s: shown %s, mark-to-market %s, before window %s, steps %d", acc, dates[k], s.FloatString(10), mtmD.FloatString(10), mtmF.FloatString(10), steps)
-					switch {
-					case diffL.Cmp(bound) <= 0:
-						c.Monitored++
-						c.Tag("mtm-literal-ok")
-					case diffW.Cmp(bound) <= 0 && mtmF.Sign() != 0:
-						c.MonitorKnown("valued", bc.Idx, "shown_equals_mark_to_market", in, detail, "window-start-after-position")
-					default:
-						c.Monitor("valued", bc.Idx, "shown_equals_mark_to_market", in, false, detail)
-					}
-				}
-			}
-		}, "c03mtm", bc.F.Val, bc.J.Wire(), itoa(start-1), strings.Join(ds, ","))
 		if !bc.F.NoClose {
 			c03ClosingMonitor(c, bt, bc, in, dates, ds, rows, start)
 			continue
@@ -339,6 +248,7 @@ func runC03(c *Ctx) {
 		}, "c03flow", bc.F.Val, bc.J.Wire(), itoa(start-1), strings.Join(ds, ","))
 	}
 	c03Modes(c, bt)
+	runC03Text(c, bt)
 }
 
 // c03ClosingMonitor: theorem C03_command_flow_cell with --close: in a cumulative report every column of an
@@ -598,4 +508,106 @@ func c03Modes(c *Ctx, bt *Batch) {
 			}
 		}, "c03rows", bc.F.Wire(today()), bc.J.Wire())
 	}
+}
+
+// c03ALMonitor: the monitor of theorem C03_command_cell on one real report (per-account cumulative rows): every A/L cell
+// against Spec.mtm(D) - Spec.mtm(eve of the window) of the journal j with the proved bound Spec.stepBound (driver op c03mtm).
+// ok = false: the report has no columns / an empty window (no claim); otherwise the parsed report for the flow monitors.
+func c03ALMonitor(c *Ctx, bt *Batch, stream string, idx int, in any, f0 BalFlags, j *Journal, stdout string) (dates, ds []string, rows []reportRow, start int, ok bool) {
+	eps := big.NewRat(1, 100000000)
+	// ---- monitor: shown value of every A/L account row vs exact mark-to-market
+	dates, rows, _ = parseTextReport(stdout)
+	if len(dates) == 0 {
+		return
+	}
+	for _, d := range dates {
+		t, err := time.Parse("2006-01-02", d)
+		if err != nil {
+			ds = nil
+			break
+		}
+		ds = append(ds, itoa(dayNum(t)))
+	}
+	if ds == nil {
+		return
+	}
+	jmin := 1 << 30
+	for _, d := range j.Dirs {
+		if d.Kind == 't' && d.Date < jmin {
+			jmin = d.Date
+		}
+	}
+	start = jmin
+	if f0.From > start {
+		start = f0.From
+	}
+	if f0.To != 0 && start > f0.To {
+		c.Tag("inverted-window")
+		return // empty window: the report shows nothing, the property makes no claim
+	}
+	shown := map[string][]string{}
+	for _, r := range rows {
+		if strings.HasPrefix(r.Path, "Assets") || strings.HasPrefix(r.Path, "Liabilities") {
+			shown[r.Path] = r.Values
+		}
+	}
+	bt.Add(func(ans string) {
+		if ans == "bad-op" || ans == "" {
+			return
+		}
+		for _, item := range strings.Fields(ans) {
+			parts := strings.Split(item, "|")
+			acc := parts[0]
+			vals, has := shown[acc]
+			for k, cell := range parts[1:] {
+				f := strings.Split(cell, ":")
+				if len(f) != 4 {
+					continue
+				}
+				if f[1] == "none" {
+					// a needed price is missing at this date although the command printed a report
+					q := "0"
+					if has && k < len(vals) {
+						q = vals[k]
+					}
+					c.Monitor(stream, idx, "missing_price_is_error", in, false, fmt.Sprintf("account %s column %s: no price exists but the report shows %q", acc, dates[k], q))
+					continue
+				}
+				mtmD, _ := ratOf(f[1])
+				mtmF := new(big.Rat)
+				if f[2] != "none" {
+					mtmF, _ = ratOf(f[2])
+				}
+				var steps int64
+				fmt.Sscan(f[3], &steps)
+				// steps = Spec.stepBound (non-zero bookings on the account in a commodity other than V dated inside
+				// the window up to the column date + days with a price declaration there, per such commodity):
+				// the bound of theorem C03_command_cell, no slack added
+				bound := new(big.Rat).Mul(eps, big.NewRat(steps, 1))
+				sv := ""
+				if has && k < len(vals) {
+					sv = vals[k]
+				}
+				s, ok := ratOf(sv)
+				if !ok {
+					c.Monitor(stream, idx, "cell_is_number", in, false, "cell "+sv)
+					continue
+				}
+				windowed := new(big.Rat).Sub(mtmD, mtmF)
+				diffW := new(big.Rat).Abs(new(big.Rat).Sub(s, windowed))
+				diffL := new(big.Rat).Abs(new(big.Rat).Sub(s, mtmD))
+				detail := fmt.Sprintf("account %s column %s: shown %s, mark-to-market %s, before window %s, steps %d", acc, dates[k], s.FloatString(10), mtmD.FloatString(10), mtmF.FloatString(10), steps)
+				switch {
+				case diffL.Cmp(bound) <= 0:
+					c.Monitored++
+					c.Tag("mtm-literal-ok")
+				case diffW.Cmp(bound) <= 0 && mtmF.Sign() != 0:
+					c.MonitorKnown(stream, idx, "shown_equals_mark_to_market", in, detail, "window-start-after-position")
+				default:
+					c.Monitor(stream, idx, "shown_equals_mark_to_market", in, false, detail)
+				}
+			}
+		}
+	}, "c03mtm", f0.Val, j.Wire(), itoa(start-1), strings.Join(ds, ","))
+	return dates, ds, rows, start, true
 }
